@@ -539,6 +539,10 @@ pub struct IterCase {
     finish: u8,
     ops: Vec<ItOp>,
     drain: bool,
+    /// finally the adaptor itself is consumed by value (the overridable internal-iteration methods are
+    /// only reached that way): 1 count, 2 for_each, 3 sum, 4 last, 5 fold, 6 max, 7 rev().count()
+    #[serde(default)]
+    consume: u8,
 }
 
 fn finish_of(k: u8) -> ProgressFinish {
@@ -647,6 +651,39 @@ fn run_iter(c: &IterCase) -> CaseResult {
             ensure!(pb.message() == want_msg, "finish", "{ctx}: message {:?} after exhaustion with {:?}", pb.message(), finish_of(c.finish));
         }
     }
+    if c.consume % 8 != 0 {
+        let rest_plain: Vec<u32> = plain.collect();
+        let ctx = format!("consuming the adaptor by value (kind {}) after ops {:?}", c.consume % 8, ops);
+        match c.consume % 8 {
+            1 => ensure!(it.count() == rest_plain.len(), "transparency", "{ctx}: count() differs"),
+            2 => {
+                let mut a = vec![];
+                it.for_each(|x| a.push(x));
+                ensure!(a == rest_plain, "transparency", "{ctx}: for_each saw {a:?} vs {rest_plain:?}");
+            }
+            3 => ensure!(it.sum::<u32>() == rest_plain.iter().sum::<u32>(), "transparency", "{ctx}: sum() differs"),
+            4 => ensure!(it.last() == rest_plain.last().copied(), "transparency", "{ctx}: last() differs"),
+            5 => ensure!(it.fold(0u64, |a, x| a.wrapping_mul(31).wrapping_add(x as u64)) == rest_plain.iter().fold(0u64, |a, x| a.wrapping_mul(31).wrapping_add(*x as u64)), "transparency", "{ctx}: fold() differs"),
+            6 => ensure!(it.max() == rest_plain.iter().copied().max(), "transparency", "{ctx}: max() differs"),
+            _ => ensure!(it.rev().count() == rest_plain.len(), "transparency", "{ctx}: rev().count() differs"),
+        }
+        yielded += rest_plain.len() as u64;
+        exhausted = true;
+        let want_pos = if c.finish % 5 <= 2 { want_len.unwrap_or(yielded) } else { yielded };
+        let got = pb.position();
+        ensure!(got == want_pos, "count", "{ctx}: position() = {got}, expected {want_pos} ({yielded} items yielded, finish {:?})", finish_of(c.finish));
+        ensure!(pb.is_finished(), "finish", "{ctx}: the iterator is exhausted but is_finished() is false");
+        let want_msg = match c.finish % 5 {
+            1 => "done",
+            4 => "left",
+            _ => match &c.wrap {
+                Wrap::ProgressWith(_) | Wrap::WrapIter(_) => "start",
+                _ => "",
+            },
+        };
+        ensure!(pb.message() == want_msg, "finish", "{ctx}: message {:?} after exhaustion with {:?}", pb.message(), finish_of(c.finish));
+        v.label("adaptor_consumed_by_value");
+    }
     v.nontrivial = exhausted || yielded > 0;
     v.label_if(exhausted, "exhausted");
     v.label_if(!exhausted && yielded > 0, "partial_consumption");
@@ -676,7 +713,8 @@ fn decode_iter(u: &mut FuzzInput) -> IterCase {
             _ => ItOp::Rest(u.n(4) as u8),
         });
     }
-    IterCase { n, wrap, finish, ops, drain }
+    let consume = (ops.len() as u8 * 5 + n as u8) % 8;
+    IterCase { n, wrap, finish, ops, drain, consume }
 }
 
 fn iter_strategy(_t: Tier) -> BoxedStrategy<IterCase> {
@@ -688,8 +726,8 @@ fn iter_strategy(_t: Tier) -> BoxedStrategy<IterCase> {
         proptest::option::of(0u16..40).prop_map(Wrap::WrapIter),
     ];
     let op = prop_oneof![8 => Just(ItOp::Next), 4 => Just(ItOp::NextBack), 2 => Just(ItOp::Len), 2 => (0u8..6).prop_map(ItOp::Nth), 1 => (0u8..5).prop_map(ItOp::Rest)];
-    (0u16..30, wrap, 0u8..5, proptest::collection::vec(op, 0..40), any::<bool>())
-        .prop_map(|(n, wrap, finish, ops, drain)| IterCase { n, wrap, finish, ops, drain })
+    (0u16..30, wrap, 0u8..5, proptest::collection::vec(op, 0..40), any::<bool>(), prop_oneof![2 => Just(0u8), 3 => 1u8..8])
+        .prop_map(|(n, wrap, finish, ops, drain, consume)| IterCase { n, wrap, finish, ops, drain, consume })
         .boxed()
 }
 
@@ -704,6 +742,8 @@ pub enum AOp {
     PollFillBuf,
     Consume(u16),
     PollWrite(u16),
+    /// poll_write_vectored with two slices of these lengths
+    PollWriteVectored(u8, u8),
     PollFlush,
     PollShutdown,
     Seek(u32),
@@ -803,6 +843,19 @@ fn run_async(c: &AsyncCase) -> CaseResult {
                 }
                 v.label_if(p1.is_pending(), "pending");
             }
+            AOp::PollWriteVectored(a, b) => {
+                let d1: Vec<u8> = (0..*a).map(|x| x % 251).collect();
+                let d2: Vec<u8> = (0..*b).map(|x| 255 - x % 251).collect();
+                let bufs = [std::io::IoSlice::new(&d1), std::io::IoSlice::new(&d2)];
+                let p1 = Pin::new(&mut wrapped).poll_write_vectored(&mut cx, &bufs).map_err(|e| e.kind());
+                let p2 = Pin::new(&mut plain).poll_write_vectored(&mut cx, &bufs).map_err(|e| e.kind());
+                same!(p1, p2);
+                if let Poll::Ready(Ok(k)) = p1 {
+                    want += k as u64;
+                    v.label_if(k > 0, "vectored_async_write");
+                }
+                v.label_if(p1.is_pending(), "pending");
+            }
             AOp::PollFlush => {
                 let p1 = Pin::new(&mut wrapped).poll_flush(&mut cx).map_err(|e| e.kind());
                 let p2 = Pin::new(&mut plain).poll_flush(&mut cx).map_err(|e| e.kind());
@@ -885,6 +938,7 @@ fn async_strategy(tier: Tier) -> BoxedStrategy<AsyncCase> {
         3 => Just(AOp::PollFillBuf),
         3 => (0u16..=1000).prop_map(AOp::Consume),
         3 => (0u16..80).prop_map(AOp::PollWrite),
+        1 => (0u8..40, 0u8..40).prop_map(|(a, b)| AOp::PollWriteVectored(a, b)),
         1 => Just(AOp::PollFlush),
         1 => Just(AOp::PollShutdown),
         1 => any::<u32>().prop_map(AOp::Seek),
